@@ -46,11 +46,13 @@ def obligations(tier: str, seed: int) -> tuple[list[Obl], dict]:
     fam_reps = [f[0] for f in fams]
     obls: list[Obl] = []
 
-    def add(rep, members, kind, minlen, maxlen, pretty, ct, pt=15.0, stmt=None):
+    def add(rep, members, kind, minlen, maxlen, pretty, ct, pt=15.0, stmt=None, alphabet=None):
         params = {"dialect": rep, "kind": kind, "minlen": minlen, "maxlen": maxlen, "pretty": pretty}
         if stmt:
             params["stmt"] = stmt
-        key = f"{kind}:{rep or 'base'}:len{minlen}-{maxlen}:pretty={pretty}"
+        if alphabet:
+            params["alphabet"] = alphabet
+        key = f"{kind}{'-' + alphabet if alphabet else ''}:{rep or 'base'}:len{minlen}-{maxlen}:pretty={pretty}"
         obls.append(Obl(key=key, harness="h_quote.py", params=params, cond_timeout=ct, path_timeout=pt,
                         desc={"group": members, "kind": kind, "len": [minlen, maxlen], "pretty": pretty},
                         group=f"{kind}:{rep}:{minlen}:{maxlen}:{pretty}"))
@@ -68,8 +70,12 @@ def obligations(tier: str, seed: int) -> tuple[list[Obl], dict]:
                 # two-character values reach escape/escape and escape/delimiter interactions; always explored where the
                 # tokenizer has more than one string escape character, by rotation elsewhere
                 add(f[0], f, "string", 2, 2, False, 150)
-            if i % 13 == seed % 13:
-                add(f[0], f, "comment", 1, 1, False, 240, pt=30.0)
+            # comment texts range over the dialect's delimiter alphabet (engines/xh/alpha.py): len 1 everywhere, len 2 and
+            # len 3 (over the comment markers' own characters) for the base family and one rotating family
+            add(f[0], f, "comment", 1, 1, "both", 120, pt=30.0)
+            if f[0] == "" or i == 1 + seed % (len(fams) - 1):
+                add(f[0], f, "comment", 2, 2, False, 300, pt=30.0)
+                add(f[0], f, "comment", 3, 3, False, 400, pt=30.0, alphabet="markers")
     else:
         for g in groups:
             add(g[0], g, "string", 0, 1, "both", 200)
@@ -80,18 +86,17 @@ def obligations(tier: str, seed: int) -> tuple[list[Obl], dict]:
             for pretty in (False, True):
                 add(f[0], f, "string", 2, 2, pretty, 300)
                 add(f[0], f, "raw", 2, 2, pretty, 300)
-                add(f[0], f, "comment", 1, 1, pretty, 420, pt=30.0)
+                add(f[0], f, "comment", 1, 2, pretty, 600, pt=30.0)
+                add(f[0], f, "comment", 3, 3, pretty, 900, pt=30.0, alphabet="markers")
             add(f[0], f, "ident", 2, 2, False, 600)
             if _has_backslash_escapes(f[0]):
                 add(f[0], f, "string", 3, 3, False, 1200)
-        for i, f in enumerate(fams):
-            if i % 13 == seed % 13:
-                add(f[0], f, "comment", 2, 2, False, 1200, pt=30.0)
+        add("", fams[0], "comment", 4, 4, False, 1800, pt=30.0, alphabet="markers")
     bounds = {
         "value": "every Unicode string v with minlen <= len(v) <= maxlen (per obligation, see samples[*].desc.len)",
         "groups": len(groups), "families": len(fams),
         "pretty": "symbolic bool where desc.pretty == 'both'",
-        "outside": "len(v) > maxlen; heredoc/dollar-quoted output; byte strings; statements other than `SELECT a` for comments",
+        "outside": "len(v) > maxlen; heredoc/dollar-quoted output; byte strings; statements other than `SELECT a` for comments; comment texts outside the dialect's delimiter alphabet (comment-markers alphabet for len >= 3)",
     }
     return obls, bounds
 
